@@ -858,3 +858,46 @@ Definition is_sub_b (b : bval) : bool := match b with VSub _ => true | _ => fals
 Definition sub_cls (b : bval) : cls := match b with VSub t => t | _ => CObject end.
 Definition is_class_obj (l : obj) : bool := match l with OClass _ => true | _ => false end.
 Definition class_obj (l : obj) : cls := match l with OClass k => k | _ => CObject end.
+
+(* ------------------------------------------------------------------ *)
+(* `x in "<s>"` / `x not in "<s>"`: a container whose own __contains__ (substring test) is not "equals one of
+   the elements obtained by iterating it" (single characters).  _constraint_from_compare_op hands the container
+   itself to InPredicate (in_arg = ArgContainer, read off the source: Gen/NarrowSrc.gen_in_arg): a Literal member is
+   tested with the container's own __contains__ (a TypeError leaves it alone); every other member is narrowed, in the
+   positive branch, to the *iterated* elements it accepts. *)
+Fixpoint str_prefix (t s : list N) : bool :=
+  match t, s with
+  | [], _ => true
+  | a :: t', b :: s' => N.eqb a b && str_prefix t' s'
+  | _ :: _, [] => false
+  end.
+Fixpoint str_infix (t s : list N) : bool :=
+  str_prefix t s || match s with [] => false | _ :: s' => str_infix t s' end.
+Definition str_chars (s : list N) : list obj := map (fun ch => OStr [ch]) s.
+
+Inductive in_arg := ArgContainer | ArgElements.
+Definition model_in_arg : in_arg := ArgContainer.
+
+Definition pred_instr_with (arg : in_arg) (s : list N) (sv : sval) (positive : bool) : list sval :=
+  match arg, sbase sv with
+  | ArgContainer, VKnown (OStr t) => if Bool.eqb (str_infix t s) positive then [sv] else []
+  | ArgContainer, VKnown _ => [sv]
+  | _, _ => pred_in (str_chars s) sv positive
+  end.
+Definition instr_narrow_with (arg : in_arg) (v : value) (s : list N) (pol : bool) : value :=
+  flat_map (fun sv => pred_instr_with arg s sv pol) v.
+Definition instr_narrow : value -> list N -> bool -> value := instr_narrow_with model_in_arg.
+(* the run-time value of `x in "<s>"` (None: TypeError) *)
+Definition holds_instr (s : list N) (o : obj) : option bool :=
+  match o with OStr t => Some (str_infix t s) | _ => None end.
+Definition all_known (v : value) : bool := forallb (fun sv => is_known_b (sbase sv)) v.
+
+(* ------------------------------------------------------------------ *)
+(* a constraint applied to a variable other than the one the condition was evaluated on (a helper returning a
+   condition about *its* parameter, called from a scope that has a variable of the same name): the value the
+   implementation gives the caller's variable *)
+Definition leak_narrow (v_caller : value) (c : cond) (pol : bool) : value := narrow v_caller c pol.
+
+(* `case <pattern with sub-patterns> as p`: visit_MatchAs applies the whole pattern's constraint, including the
+   constraints of the sub-patterns (which are about elements / attributes), to the subject *)
+Definition as_bound (v : value) (whole sub : cond) : value := narrow v (CAnd whole sub) true.
